@@ -23,11 +23,19 @@
 //	(C) internal consistency of every result (res1, and res0 = the same FixVulns with MaxUpgrades=0, i.e. every
 //	    compatible patch applied, on its own copy of the manifest): no vulnerability is both listed in the Fixed
 //	    of one of the result's patches and marked Unactionable
+//	(F) independent reference: the ids in res1.Vulnerabilities (for the original manifest) and in
+//	    res2.Vulnerabilities (for the written manifest) equal the harness's own analysis of the same file:
+//	    requirements read by the real manifest reader, resolved by the deps.dev npm/Maven resolver directly on a
+//	    client written in verif/universe (no repository resolution / override-client / vulnerability / sub-graph /
+//	    filter code), matched with IsAffected, filtered per the documented option semantics (ignore, explicit,
+//	    dev-only, CVSS threshold, max depth = some affected package within the depth)
 //	(D) with the no-introduce option the applied patch reports no Introduced vulnerability (the documented meaning
 //	    of the option; together with (A) this means the re-analysis finds no new vulnerability)
 //
 // Don't-care cells (accepted; counted in the evidence):
 //   - run 1 returns an error (unresolvable manifest, ...): nothing is demanded.
+//   - (F) is skipped when the reference cannot resolve the manifest, or when dev dependencies are off and a package
+//     is declared twice in the manifest (two origins), where the scope of the root edge is ambiguous.
 //   - res1 reports more than one patch although MaxUpgrades=1: not this property's business (never observed).
 //   - Packages lists inside the vulnerabilities, patch ordering/choice, errors lists, file bytes (C13).
 //   - which filter run 2 must use is fixed by the property text: "a fresh analysis" under the same options.
@@ -37,7 +45,7 @@
 //     "only consider these vulnerability IDs & ignore all others".
 //
 // Cause keys: <strategy>:fixed-still-present, :introduced-not-found, :unreported-new-vuln, :vuln-vanished,
-// :no-patch-but-requirements-changed, :fixed-marked-unactionable, :no-introduce-violated, :rewritten-manifest-unanalysable, :hang,
+// :no-patch-but-requirements-changed, :fixed-marked-unactionable, :no-introduce-violated, :rewritten-manifest-unanalysable, :analysis-differs-from-reference, :hang,
 // :panic:<site>, explicit-list:introduced-vuln-not-filtered, pom:shared-property-collateral-change.
 package main
 
@@ -182,6 +190,7 @@ func runTuple(c *u.Case, dir string) *tupleOut {
 		return out
 	}
 	out.logf("run 1: vulns=%v patches=%s", describeVulns(res1.Vulnerabilities), describePatches(res1.Patches))
+	checkReference(c, st, "run 1 (original manifest)", filepath.Join(dir, "f1"), base, res1, out)
 	if len(res1.Patches) > 1 {
 		out.dc("more-than-one-patch")
 		return out
@@ -236,6 +245,7 @@ func runTuple(c *u.Case, dir string) *tupleOut {
 		return out
 	}
 	out.logf("run 2: vulns=%v", describeVulns(res2.Vulnerabilities))
+	checkReference(c, st, "run 2 (written manifest)", filepath.Join(dir, "f2"), written, res2, out)
 
 	if len(res1.Patches) == 0 {
 		// (B)
@@ -312,6 +322,38 @@ func runTuple(c *u.Case, dir string) *tupleOut {
 		}
 	}
 	return out
+}
+
+// checkReference is law (F): the vulnerability ids a FixVulns result lists for the manifest it analysed equal
+// the harness's own reference analysis of that manifest (universe.RefAnalyse / RefFiltered).
+func checkReference(c *u.Case, st, label, dir string, data []byte, res result.Result, out *tupleOut) {
+	p, err := c.PutManifest(dir, data)
+	if err != nil {
+		return
+	}
+	rw, err := c.ReadWriter()
+	if err != nil {
+		return
+	}
+	m, err := guidedremediation.VerifParseManifest(p, rw)
+	if err != nil {
+		out.dc("reference-manifest-unreadable")
+		return
+	}
+	vs, devKnown, err := c.RefAnalyse(m)
+	if err != nil {
+		out.dc("reference-unresolvable")
+		return
+	}
+	want, ok := c.RefFiltered(vs, devKnown)
+	if !ok {
+		out.dc("reference-dev-flags-unknown")
+		return
+	}
+	got := ids(res.Vulnerabilities)
+	if !reflect.DeepEqual(set(want), set(got)) {
+		out.add(st+":analysis-differs-from-reference", "options=%s, %s: FixVulns lists vulnerabilities %v, the reference analysis (deps.dev resolver on the same manifest + IsAffected + documented filters) finds %v (unfiltered: %v)", c.Opt.Name, label, got, want, vs)
+	}
 }
 
 // checkConsistent is the internal-consistency law on one result: no vulnerability is both listed as
@@ -399,7 +441,7 @@ func main() {
 		default:
 		}
 	}
-	dcTotals := map[string]*atomic.Int64{"run1-error": {}, "more-than-one-patch": {}}
+	dcTotals := map[string]*atomic.Int64{"run1-error": {}, "more-than-one-patch": {}, "reference-manifest-unreadable": {}, "reference-unresolvable": {}, "reference-dev-flags-unknown": {}}
 	perStrategy := map[string]map[string]int64{}
 	perOption := map[string]*[2]atomic.Int64{}
 	exhaustive := true
@@ -516,7 +558,7 @@ func main() {
 	r.Set("dont_care_cells_hit", dc)
 	r.Assume("the in-memory deps.dev LocalClient and the npm/Maven resolvers of deps.dev/util/resolve are the resolution semantics (the same ones the repository's own tests use)")
 	r.Assume("vulnerability matching uses the repository's IsAffected (decided separately by C18)")
-	rule := "For every tuple (universe, manifest, vulnerability set, upgrade config, option variant) of the bounded product below, npm/relax and Maven/override, MaxUpgrades=1: run 1 = FixVulns on the manifest file; run 2 = fresh FixVulns (fresh clients, same filter options, every upgrade level none) on the file run 1 wrote. (A) if run 1 applied one patch P: ids(run2 vulns) = ids(run1 vulns) - ids(P.Fixed) + ids(P.Introduced); (B) if run 1 applied no patch: the re-read requirement list equals the original; (C) in run 1 and in a run with MaxUpgrades=0 no vulnerability is both in the Fixed list of a reported patch and Unactionable; (D) with no-introduce P.Introduced is empty; no panic, no tuple longer than 120 s. " +
+	rule := "For every tuple (universe, manifest, vulnerability set, upgrade config, option variant) of the bounded product below, npm/relax and Maven/override, MaxUpgrades=1: run 1 = FixVulns on the manifest file; run 2 = fresh FixVulns (fresh clients, same filter options, every upgrade level none) on the file run 1 wrote. (A) if run 1 applied one patch P: ids(run2 vulns) = ids(run1 vulns) - ids(P.Fixed) + ids(P.Introduced); (B) if run 1 applied no patch: the re-read requirement list equals the original; (C) in run 1 and in a run with MaxUpgrades=0 no vulnerability is both in the Fixed list of a reported patch and Unactionable; (D) with no-introduce P.Introduced is empty; (F) the ids listed by run 1 / run 2 equal the harness's independent reference analysis (deps.dev resolver + IsAffected + documented filters) of the original / written manifest; no panic, no tuple longer than 120 s. " +
 		"Bound (" + r.Tier + ", Lite lists): " + b.Describe() + "; upgrade configs {major},{patch},{minor,first package:none},{major,last package:none} (the last package is the vulnerable transitive one in the chain shapes); shapes " + strings.Join(u.FixShapes, ", ") + " of verif/universe/gen.go, each the full product of its lists, times the option variants of universe.OptionVariants (default, ignore=[Vi], explicit=[Vi], dev-deps off with requirement i marked dev, max depth 1, max depth 2, min severity 5.0 with V1 low/V2 high and vice versa, no-introduce), enumerated simplest first."
 	os.RemoveAll(scratchRoot)
 	r.Finish(rule, exhaustive)
